@@ -148,6 +148,47 @@ def check(run, model, tier):
         run.inst('DESC.instance-storage', g, 'return ' + norm(v), ok,
                  '' if ok else '__get__ returns %s, which is not selected by `%s`: all instances read the same storage' % (norm(v), inst),
                  node=r, obligation=True)
+    # ---- "no instance" (class-level access) is decided by `instance is None`, never by the truth value of the instance: an instance may be falsy
+    # (empty container, __bool__ False) and would then be treated as "no instance" and share the descriptor's own storage with every other falsy instance
+    run.rule('DESC.none-test', 'the instance parameter is tested with `is None` / `is not None` only, never by truthiness')
+    n_bool = 0
+    for f_ in [x for x in cls.methods.values()]:
+        pn = [p_ for p_ in f_.params[1:] if p_ == 'instance' or (f_.name in ('__get__', '__set__', '__delete__') and p_ == f_.params[1])]
+        if not pn:
+            continue
+        inst_ = pn[0]
+
+        def truthy_uses(e, boolctx):
+            out = []
+            if isinstance(e, ast.Name) and e.id == inst_ and boolctx:
+                out.append(e)
+            elif isinstance(e, ast.BoolOp):
+                for v in e.values:
+                    out += truthy_uses(v, True)
+            elif isinstance(e, ast.UnaryOp) and isinstance(e.op, ast.Not):
+                out += truthy_uses(e.operand, True)
+            elif isinstance(e, ast.IfExp):
+                out += truthy_uses(e.test, True) + truthy_uses(e.body, False) + truthy_uses(e.orelse, False)
+            elif isinstance(e, ast.Call) and isinstance(e.func, ast.Name) and e.func.id == 'bool' and e.args:
+                out += truthy_uses(e.args[0], True)
+            else:
+                for ch in ast.iter_child_nodes(e):
+                    if isinstance(ch, ast.expr):
+                        out += truthy_uses(ch, False)
+            return out
+        for n_ in walk_shallow(f_.node):
+            uses = []
+            if isinstance(n_, (ast.If, ast.While, ast.Assert)):
+                uses = truthy_uses(n_.test, True)
+            elif isinstance(n_, (ast.Assign, ast.Return, ast.Expr, ast.AugAssign)) and getattr(n_, 'value', None) is not None:
+                uses = truthy_uses(n_.value, False)
+            for u in uses:
+                n_bool += 1
+                run.inst('DESC.none-test', f_, 'truth value of `%s` in %s' % (inst_, norm(n_)), False,
+                         '%s decides "is there an instance" by the truth value of `%s`: an instance that is falsy (an empty container, __bool__ returning False) is treated as the class-level '
+                         'access and its value is kept in storage shared by all such instances' % (f_.qualname, inst_), node=n_, obligation=True)
+    if n_bool == 0:
+        run.inst('DESC.none-test', g, 'no truth-value test of the instance parameter', True, obligation=True)
     # ---- metaclass
     meta = model.cls('MetaThreadSafeAttributes')
     mi = meta.methods.get('__init__')
